@@ -92,7 +92,11 @@ def heap_account(v, trace, res):
                 continue
         if os.environ.get("VERIF_DEBUG"):
             vf.log("bad: %s %s %s args=%s msg=%s" % (e["op"], b["failing"], e["kind"], json.dumps(e["a"])[:300], e.get("msg", "")[:200]))
-        mine = [c for c in b["failing"] if v.prop in attribute(e["op"], c)]
+        def owners(c):
+            if c == "frame" and e.get("_alias_ops") and set(e["_alias_ops"]) <= LIST_MODEL_EDGES:
+                return {"C01"}
+            return attribute(e["op"], c)
+        mine = [c for c in b["failing"] if v.prop in owners(c)]
         if not mine:
             continue
         desc = {"op": e["op"], "failing": sorted(mine), "kind": e["kind"], "args": e["a"], "history": e["h"],
@@ -108,9 +112,11 @@ def heap_account(v, trace, res):
     return res
 
 
-# operations whose result may share row storage with its source: the property (C19) does not list them among the
-# copy-producing operations ("Clones, sub-alignments and site selections own their data"), the code shares, the spec follows
-MAY_SHARE = {"Sample", "SampleSeqBag", "Append", "Rarefy"}
+# No operation's result may share row storage with its source any more (Sample, Append and Rarefy used to; repaired).
+# A change of an unrelated object is attributed through the lineage graph: to C19 when an operation the property lists
+# as copy-producing links the two objects, to C01 (list model: "appending ... sampling") when only these do.
+MAY_SHARE = set()
+LIST_MODEL_EDGES = {"Sample", "SampleSeqBag", "Append", "Rarefy"}
 
 
 def lineage_pass(evs):
